@@ -9,7 +9,9 @@ TOOLS = ["bedgraphtobigwig", "bigwigtobedgraph", "bedtobigbed", "bigbedtobed", "
          "bigwigmerge", "bigwiginfo", "bigbedinfo"]
 MIXED = {"bedgraphtobigwig": "bedGraphToBigWig", "bigwigtobedgraph": "bigWigToBedGraph", "bedtobigbed": "bedToBigBed", "bigbedtobed": "bigBedToBed",
          "bigwigaverageoverbed": "bigWigAverageOverBed", "bigwigmerge": "bigWigMerge", "bigwigvaluesoverbed": "bigWigValuesOverBed"}
-VALS = {1: "1", 2: "2.5", 3: "-0.75", 4: "1e-3", 5: "3e10", 6: "0", 7: "7"}
+VALS = {1: "1", 2: "2.5", 3: "-0.75", 4: "1e-3", 5: "3e10", 6: "0", 7: "7",
+        8: "inf", 9: "-inf", 10: "NaN", 11: "-0"}      # 8..11: special values, only in text 4 (they are legal bedGraph values)
+NORMAL = 7
 
 
 def f32bits(x):
@@ -73,6 +75,9 @@ def text_items(kind, which):
     items = []
     if which == 1:
         layout = {1: [(0, 2), (2, 5), (7, 9)], 2: [(1, 4), (10, 12)], 3: [(0, 1)]}
+    elif which == 4:
+        # bigWig: infinities, NaN and -0 among ordinary values (bigBed: just another small layout)
+        layout = {1: [(0, 2), (2, 5), (7, 9), (9, 12)], 2: [(1, 4), (10, 12), (12, 13)], 3: [(0, 1), (3, 6)], 4: [(5, 6)]}
     elif which == 2:
         layout = {c: [] for c in (1, 2, 3, 4)}
         for c in layout:
@@ -101,7 +106,7 @@ def text_items(kind, which):
                 items.append([c, s, e, k])
                 prev_start = s
             else:
-                items.append([c, s, e, 1 + (k % len(VALS))])
+                items.append([c, s, e, [8, 1, 9, 10, 5, 11][k % 6] if which == 4 else 1 + (k % NORMAL)])
     return items
 
 
